@@ -27,10 +27,15 @@ var Dq = []string{
 	`{"b":2,"a":1,"c":{"z":1,"y":2}}`,
 	`{"~1":1,"/":2,"a~1b":{"~0":[1]},"a/b":{"~":[2]},"~01":3,"~~":{"~~/~":4}}`,
 	`{"":{"":1,"b":[{"":2}]},"a":{"b":3}}`,
+	// sizes beyond the usual small-value fast paths: a 70-byte member name, a 200-byte string, a 66-byte number
+	`{"` + strings.Repeat("n", 70) + `":{"x":"` + strings.Repeat("s<", 100) + `"},"k":[` + strings.Repeat("9", 66) + `]}`,
 }
 
 // PatchValues V, simplest first.
 var patchValuesSrc = []string{`1`, `"s"`, `null`, `{}`, `[]`, `{"k":null}`, `[null]`, `{"a":1}`}
+
+// longValue: an 80-byte object value (first-level alphabets of C01/C05 only)
+var longValue = rj.MustParse(`{"pad":"` + strings.Repeat("p", 60) + `","z":null}`)
 
 func parseAll(src []string) []*rj.Value {
 	out := make([]*rj.Value, len(src))
